@@ -82,6 +82,10 @@ static void vf_fail(const char *what, int a, int b)
 static void vf_step(void) { if (++vf_steps > vf_horizon) vf_leave(VF_ST_HORIZON); }
 static void vf_body(void) { }
 
+#ifdef VF_LEDGER
+#include "ledger.h"
+#endif
+
 /* ---- API flavour glue ---- */
 #if defined(VF_API_NR)
 #define VF_S0
@@ -408,6 +412,7 @@ static int vf_between_calls(void)
 				if (!vf_B[b].alive) continue;
 				if (i == OP_SWITCH && (vf_on_stack(b) || !vf_B[b].handle_valid)) continue;   /* a buffer sits in at most one stack slot */
 				if (i == OP_DELETE && vf_on_stack_below_top(b)) continue;     /* the stack still refers to it */
+				if (i == OP_DELETE && b == c && vf_sp > 1) continue;          /* deleting the top of a deeper push-stack by hand: not described */
 				if (i != OP_SWITCH && !vf_B[b].handle_valid && b != c) continue;
 				nc++;
 			}
@@ -488,6 +493,7 @@ static int vf_between_calls(void)
 			if (!vf_B[b].alive) continue;
 			if (op == OP_SWITCH && (vf_on_stack(b) || !vf_B[b].handle_valid)) continue;
 			if (op == OP_DELETE && vf_on_stack_below_top(b)) continue;
+			if (op == OP_DELETE && b == c && vf_sp > 1) continue;
 			if (op != OP_SWITCH && !vf_B[b].handle_valid && b != c) continue;
 			cand[nc++] = b;
 		}
@@ -563,6 +569,7 @@ static int vf_between_calls(void)
 		if (c < 0) {                 /* yyrestart makes the buffer if there is none */
 			b = vf_new_file_buf(k);
 			vf_stk[vf_sp > 0 ? vf_sp - 1 : vf_sp++] = b;
+			vf_B[b].h = VF_CUR(); vf_B[b].handle_valid = 1;     /* a user who wants to delete it later notes yy_current_buffer() */
 		} else {
 			vf_B[c].src = k; vf_B[c].srcpos = 0; vf_B[c].is_file = 1;
 			vf_ref_init(&vf_B[c].R, vf_srcs[k].d, vf_srcs[k].n, 0);
@@ -585,6 +592,43 @@ static int vf_between_calls(void)
 	}
 	return 1;
 }
+
+#ifdef VF_LEDGER
+static int vf_last_status_b;
+static void vf_ledger_end_of_execution(void)
+{
+	int b;
+	VF_GUTS
+	vf_ledger_msg[0] = 0;
+	if (vf_last_status_b == VF_ST_DONE) {
+		/* the user deletes their own buffers that are not on the stack, then destroys the scanner: nothing may be left */
+		for (b = 0; b < vf_nB; b++)
+			if (vf_B[b].alive && vf_B[b].handle_valid && !vf_on_stack(b)) yy_delete_buffer(vf_B[b].h VF_S1);
+#if defined(VF_API_NR)
+		yylex_destroy();
+#else
+		if (vf_scanner) { yylex_destroy(vf_scanner); vf_scanner = 0; }
+#endif
+		vf_ledger_check_empty();
+		if (vf_ledger_msg[0]) {
+			vf_n_mismatch++;
+			if (vf_reported < 5) {
+				vf_reported++;
+				fprintf(vf_out, "{\"viol\":\"ledger\",\"group\":0,\"history\":\"%s\",\"choices\":[],\"what\":\"%s\"}\n", vf_hist, vf_ledger_msg);
+			}
+		}
+	} else {
+#if defined(VF_API_NR)
+		yylex_destroy();
+#else
+		if (vf_scanner) { yylex_destroy(vf_scanner); vf_scanner = 0; }
+#endif
+		vf_ledger_abandon();
+	}
+	vf_ledger_msg[0] = 0;
+	vf_ledger_reset_counts();
+}
+#endif
 
 static void vf_report(int st)
 {
@@ -627,6 +671,7 @@ static void vf_run_one(void)
 	}
 	if (vf_exec_ops >= 1 && vf_exec_bufs >= 2) vf_n_nontrivial++;
 #ifdef VF_LEDGER
+	vf_last_status_b = st ? st - 1 : VF_ST_DONE;
 	vf_ledger_end_of_execution();
 #endif
 }
@@ -679,7 +724,12 @@ int main(int argc, char **argv)
 		vf_timed_out, vf_executions, vf_n_tokens, vf_n_mismatch, vf_n_fatal, vf_n_horizon, vf_n_reads, vf_n_eof_actions, vf_n_wraps, vf_choice_points,
 		vf_overflow, bound > VF_BUDGET_TOTAL ? VF_BUDGET_TOTAL : bound, vf_n_nontrivial, vf_n_expected_fatal);
 	for (i = 0; i < OP_NOPS; i++) fprintf(vf_out, "%s%ld", i ? "," : "", vf_n_calls[i]);
-	fprintf(vf_out, "]}\n");
+	fprintf(vf_out, "]");
+#ifdef VF_LEDGER
+	fprintf(vf_out, ",\"ledger_checks\":%ld,\"ledger_allocs\":%ld,\"ledger_errors\":%ld,\"ledger_leaks\":%ld", vf_ledger_checks, vf_ledger_allocs_total,
+		vf_ledger_errors, vf_ledger_leaks);
+#endif
+	fprintf(vf_out, "}\n");
 	fclose(vf_out);
 	return 0;
 }
